@@ -161,10 +161,13 @@ def oracle(chk: C.Check, r, thorough: bool) -> tuple[int, int, list]:
         # macro
         margs = r.choice(["", ", 7", ", p: 'P'"])
         mx = r.randrange(len(MEXTRA))
+        mparam = r.choice(POOL + ["i", "w"])
         outs = []
         for pre, wo, wc in variants:
             mextra = MEXTRA[mx]
-            src = f"{{% macro m, p, q = 'Q' %}}{DUMP}|{{{{ p }}}}|{{{{ q }}}}{mextra}{{% endmacro %}}{pre}{wo}<<{{% call m{margs} %}}>>{wc}"
+            # parameters named like pool variables: a parameter that receives no argument and
+            # has no default is undefined in the macro, whatever the caller calls by that name
+            src = f"{{% macro m, p, q = 'Q', {mparam} %}}{DUMP}|{{{{ p }}}}|{{{{ q }}}}{mextra}{{% endmacro %}}{pre}{wo}<<{{% call m{margs} %}}>>{wc}"
             outs.append((src, render(src, loader, {"g": "G"})))
         n += len(outs)
         if len({repr(region(o)) for _, o in outs}) != 1:
@@ -235,6 +238,26 @@ def oracle(chk: C.Check, r, thorough: bool) -> tuple[int, int, list]:
             n += 1
             if got[0] != "T" or not got[1].endswith("=OUT"):
                 chk.finding("oracle:shadowed-name-not-restored", f"{src!r} gave {got}", {"source": src, "got": got})
+    # a block-bound name hides an outer variable of the same name whatever its value: nil, false, 0, '' too
+    for x in ["a", "x"]:
+        for val, shown in [("nil", ""), ("false", "false"), ("0", "0"), ("''", "")]:
+            nil_cases = [
+                (f"{{% assign {x} = 'OUT' %}}{{% with {x}: {val} %}}[{{{{ {x} }}}}]{{% endwith %}}", {}),
+                (f"{{% assign {x} = 'OUT' %}}{{% for {x} in vals %}}[{{{{ {x} }}}}]{{% endfor %}}", {}),
+                (f"{{% assign {x} = 'OUT' %}}{{% include 'p', {x}: {val} %}}", {"p": "[{{ %s }}]" % x}),
+                (f"{{% assign {x} = 'OUT' %}}{{% include 'p' with {val} as {x} %}}", {"p": "[{{ %s }}]" % x}),
+                (f"{{% assign {x} = 'OUT' %}}{{% macro m, {x} %}}[{{{{ {x} }}}}]{{% endmacro %}}{{% call m, {val} %}}", {}),
+                (f"{{% assign {x} = 'OUT' %}}{{{{ vals | map: {x} => {x} | join: '|' }}}}", {}),
+                (f"{{% render 'p', {x}: {val} %}}", {"p": "[{{ %s }}]" % x}),
+            ]
+            pyval = {"nil": None, "false": False, "0": 0, "''": ""}[val]
+            for src, ld in nil_cases:
+                got = render(src, ld, {"vals": [pyval], x: "GLOBAL"} if "render" not in src else {"vals": [pyval], x: "GLOBAL"})
+                n += 1
+                want = shown if "map:" in src else f"[{shown}]"
+                if got != ("T", want):
+                    chk.finding("oracle:falsy-binding-does-not-shadow", f"{src!r} gave {got}, expected {want!r}",
+                                {"source": src, "loader": ld, "data": {"vals": [pyval], x: "GLOBAL"}, "got": got})
     # lambda parameters (scope pushed inside a generator that a filter may abandon early)
     xs = {"xs": [1, 2, 3], "hs": [{"k": 1}, {"k": 2}]}
     lam_cases = []
